@@ -162,9 +162,12 @@ def _strip_comments(src: str) -> str:
 def grep_forbidden() -> list[str]:
     hits = []
     for p in sorted(LEAN.rglob("*.lean")):
-        if ".lake" in p.parts:
+        if ".lake" in p.parts or p.name.startswith(".audit_"):
+            continue  # (.audit_* are the short-lived `#print axioms` files of checks running at the same time)
+        try:
+            body = _strip_comments(p.read_text())
+        except FileNotFoundError:
             continue
-        body = _strip_comments(p.read_text())
         # string literals may legitimately contain words; only the driver has such strings
         for ln, line in enumerate(body.splitlines(), 1):
             if _FORBIDDEN.search(line):
